@@ -14,8 +14,9 @@ import (
 // IncludeKnown() lifts all of them (-include-known), ParseAvoid lifts the
 // named ones (-lift name,name).
 type Avoid struct {
-	// D3: `-` as a class member anywhere but the first/last position, or
-	// written as an escape.
+	// D3 (REPAIRED, the switch no longer has an effect): `-` as a class member anywhere but the first/last
+	// position, or written as an escape. Dashes are now generated everywhere, escaped where a plain one would be the
+	// range operator (ClassItem.Esc).
 	ClassDash bool
 	// D20: a block comment with a newline in the EOS position before a
 	// newline terminator.
@@ -284,6 +285,10 @@ type ClassItem struct {
 	IsRange bool   // Lo-Hi written as a range
 	Class   string // Unicode class name ("" for chars and ranges)
 	Short   bool   // \pL spelling rather than \p{L}
+	// Esc: a `-` among the bounds of this item is written as an escape sequence (\x2d, \055, \u002d): it is then a
+	// character wherever it stands (since the repair of finding D3); a plain `-` is only safe as the very first or very
+	// last member or right after a complete range
+	Esc bool
 }
 
 // BuildClass spells a class with the given members in random concrete
@@ -298,10 +303,11 @@ func BuildClass(r *rand.Rand, items []ClassItem, inverted, ignoreCase bool, av A
 	var chars, ranges []rune
 	var classes []string
 	esc := r.Intn(4)
+	escDash := false
 	spell := func(c rune, first bool) string {
 		if c == '-' {
-			if av.ClassDash && r.Intn(2) == 0 {
-				return []string{"\\x2d", "\\x2D", "\\055", "\\u002d"}[r.Intn(4)]
+			if escDash || r.Intn(3) == 0 {
+				return []string{"\\x2d", "\\x2D", "\\055", "\\u002d", "\\U0000002d"}[r.Intn(5)]
 			}
 			return "-"
 		}
@@ -312,6 +318,7 @@ func BuildClass(r *rand.Rand, items []ClassItem, inverted, ignoreCase bool, av A
 	}
 	for i, it := range items {
 		first := i == 0
+		escDash = it.Esc
 		switch {
 		case it.Class != "":
 			if it.Short && len(it.Class) == 1 {
